@@ -105,7 +105,7 @@ def check(run):
         f6b_witness(run, binary, jbin, base, known, prop='C07')
         # ---- A: one failure at every position ----
         scen = []
-        for i in range(36 if quick else 260):
+        for i in range(36 if quick else 1200):
             sc = sync_e2e.gen_scenario(rng, 'clean', p_big=0.35)
             sc.cfg['same'] = 'S'
             scen.append(sc)
@@ -152,7 +152,7 @@ def check(run):
                     run.broke('correspondence', 'e2e-A', json.dumps({'scenario': s2.to_json(), 'mismatch': o.mismatch})[:2500])
         # ---- B: scripted replies: Error to the k-th command, delivered j commands later ----
         reqs = []
-        for g in range(30 if quick else 200):
+        for g in range(30 if quick else 800):
             sc = sync_e2e.gen_scenario(rng, 'clean')
             sc.filters, sc.excluded = [], []
             if sc.src.get('', {}).get('k') != 'dir':
@@ -181,7 +181,7 @@ def check(run):
                     run.fail('C07: sync() returned Ok although the %s was an Error (scripted doers)' % label,
                              {'family': 'B', 'scenario': sc.to_json(), 'ls': ls, 'ld': ld, 'sched': sched, 'errs': e, 'srcfail': sf})
         # ---- C: natural failures ----
-        for si, sc in enumerate([gen_c08(rng, big=0.6) for _ in range(20 if quick else 120)]):
+        for si, sc in enumerate([gen_c08(rng, big=0.6) for _ in range(20 if quick else 500)]):
             if not any(n['k'] == 'file' and len(n['data']) > 600 for n in sc.src.values()):
                 continue
             o0 = sync_e2e.run_scenario(sc, binary, jbin, base)
@@ -198,7 +198,7 @@ def check(run):
                     bad = classify(sc, im['before']['dest'], im['after']['dest'], o0.impl['after']['dest'], im['after']['src'])
                     if bad:
                         run.fail('C07: file-size limit %d blocks: paths neither as before, nor as planned, nor unstamped partial: %s' % (blocks, bad[:3]), replay)
-        for i in range(16 if quick else 120):           # a folder the sync must delete holds an entry the filter hides
+        for i in range(16 if quick else 400):           # a folder the sync must delete holds an entry the filter hides
             T = sync_e2e.T0
             sc = sync_e2e.Scenario()
             sc.outside = {k: dict(v) for k, v in sync_e2e.OUTSIDE.items()}
@@ -224,7 +224,7 @@ def check(run):
             elif o.mismatch:
                 run.broke('correspondence', 'e2e-C', json.dumps({'scenario': sc.to_json(), 'mismatch': o.mismatch})[:2500])
         # ---- E: a spec file with two syncs, one of which fails ----
-        for i in range(10 if quick else 40):
+        for i in range(10 if quick else 150):
             root = tempfile.mkdtemp(prefix='spec_', dir=base)
             T = sync_e2e.T0
             good_s = {'': {'k': 'dir'}, 'f': {'k': 'file', 'data': b'ok', 'mtime_ns': T}}
